@@ -55,6 +55,10 @@ def check(path):
                     want = fmt(list(range(max(min(ln, 24), 1)))[a:b:c])
                 elif form in ("ml-null", "ml-null-pipe"):
                     want = "N"
+                elif form in ("fn-reverse", "fn-reverse-bar"):
+                    want = fmt(list(reversed(sel)))
+                elif form == "fn-sort":
+                    want = fmt(sorted(sel))
                 elif form.startswith("window:"):
                     _, w1, w2, w3 = form.split(":")
                     w3v = p(w3)
